@@ -21,6 +21,9 @@ pub struct Scenario {
     /// F2 plan per thread: indexes of eligible commit attempts that report a validation failure
     #[serde(default)]
     pub f2: Vec<Vec<u32>>,
+    /// exclusive (`&mut`) prologue run before the threads start, e.g. `add_free_darts(6 n)`
+    #[serde(default)]
+    pub pre: Vec<crate::hist::Step>,
 }
 
 #[derive(Clone, Debug)]
@@ -47,10 +50,37 @@ fn run_thread(map: &AnyMap, id: u32, txs: &[Tx], f2: Vec<u32>) -> Vec<TxOut> {
 
 /// Serial execution of the listed transactions, in the given order, on a fresh map.
 /// Returns per-transaction outputs (same indexing as `order`) and the final snapshot.
+fn apply_pre(map: &mut AnyMap, pre: &[crate::hist::Step]) {
+    use crate::hist::Step;
+    for st in pre {
+        match st {
+            Step::Tx(tx) => {
+                let _ = run_tx(map, tx);
+            }
+            Step::AddFreeDart => {
+                map.add_free_dart();
+            }
+            Step::AddFreeDarts(n) => {
+                map.add_free_darts(*n as usize);
+            }
+            Step::InsertFreeDart => {
+                map.insert_free_dart();
+            }
+            Step::RemoveFreeDart(d) => {
+                let n = map.n_darts() as u32;
+                if *d != 0 && *d < n && !map.is_unused(*d) && (0..=map.dim()).all(|i| map.beta(i, *d) == 0) {
+                    map.remove_free_dart(*d);
+                }
+            }
+        }
+    }
+}
+
 fn serial_on_fresh_map(scn: &Scenario, order: &[(usize, usize)]) -> (Vec<TxOut>, State) {
-    let (map, _) = build_map(&scn.init, &scn.order);
+    let (mut map, _) = build_map(&scn.init, &scn.order);
     fast_stm::verif::set_sim_thread(0, vec![]);
     faults::reset_thread();
+    apply_pre(&mut map, &scn.pre);
     let outs = order.iter().map(|&(th, i)| run_tx(&map, &scn.threads[th][i])).collect();
     let fin = map.snapshot(scn.init.kinds);
     (outs, fin)
@@ -74,7 +104,10 @@ fn compare_serial(order: &[(usize, usize)], conc: &[Vec<TxOut>], conc_fin: &Stat
 /// The concurrent run plus, inside the same execution, the serial replay in commit order.
 pub fn run_concurrent(scn: Arc<Scenario>, spec: SchedSpec, max_steps: usize) -> ExecResult<ConcOut> {
     execute(spec, max_steps, move || {
-        let (map, info) = build_map(&scn.init, &scn.order);
+        let (mut map, info) = build_map(&scn.init, &scn.order);
+        fast_stm::verif::set_sim_thread(0, vec![]);
+        faults::reset_thread();
+        apply_pre(&mut map, &scn.pre);
         let mapr = &map;
         let scnr = &*scn;
         let outs: Vec<Vec<TxOut>> = shuttle::thread::scope(|s| {
